@@ -419,17 +419,19 @@ func render(ds []vnet.Datagram) []string {
 
 func main() {
 	c := vlib.Init("exploration")
-	dir, err := os.MkdirTemp("/dev/shm", "c17s.")
-	if err != nil {
-		fmt.Println("ENGINE-ERROR", err)
-		os.Exit(2)
-	}
-	defer os.RemoveAll(dir)
 	if os.Getenv("VRT_WORKER") == "" && c.ReplayOnly == "" {
-		if bad := conformance(dir); bad != "" {
+		dir, err := os.MkdirTemp("/dev/shm", "c17s.")
+		if err != nil {
+			fmt.Println("ENGINE-ERROR", err)
+			os.Exit(2)
+		}
+		bad := conformance(dir)
+		os.RemoveAll(dir)
+		if bad != "" {
 			fmt.Println("ENGINE-ERROR the simulated kernel disagrees with the real one:", bad)
 			os.Exit(2)
 		}
+		c.Set("kernel_conformance_steps", conformanceSteps)
 	}
 	// one real named pipe so that logstream.New's stat sees a pipe (its contents are never used)
 	fifoDir := filepath.Join(os.TempDir(), "c17s-fifo")
